@@ -21,7 +21,26 @@ var (
 )
 
 // GenPool draws n distinct patterns that share prefixes and compete.
+// usable drops the tokens whose rule names an interceptor the router does not
+// have (they would be regexps matching the literal rule name only).
+func usable(toks []string, ics []string) []string {
+	var res []string
+	for _, t := range toks {
+		ok := true
+		for _, ic := range allICs {
+			if strings.HasSuffix(t, ":"+ic+"}") && !contains(ics, ic) {
+				ok = false
+			}
+		}
+		if ok {
+			res = append(res, t)
+		}
+	}
+	return res
+}
+
 func GenPool(r *Rng, n int, ics []string) []string {
+	tok1, tok2 := usable(tok1, ics), usable(tok2, ics)
 	nr := r.Range(1, 3)
 	var rs []string
 	for i := 0; i < nr; i++ {
